@@ -202,6 +202,19 @@ CHECKS = {
             "fields; the poison lane fills all scratch with NaN / 77 and requires unchanged results.",
             "Trusted: TLC; numba's scheduler cannot be forced (the model covers every assignment); CRC32 of float64 bytes.",
             "DESIGN.md §5 C13"),
+    "C14": (["Rat", "TomtomScoreOps", "TomtomScore", "TomtomScore_Oracle"],
+            "declarative TLA+ definition of TOMTOM complete scores, admissible alignments and the exact null p-value "
+            "(TomtomScoreOps) model-checked with TLC on all small similarity matrices (CdfMonotone, NoDrop, PValueRange, Alignment; "
+            "as-found zero-bin drop as spec-level mutant); TLC as exact oracle for random query/target sets run through the real "
+            "tomtom with the code's own integerised similarities",
+            "TLC computes from the definition (brute-force enumeration of independent column draws, not the code's convolution / "
+            "max recursion) the best complete score, the set of alignments attaining it, the exact p-value per strand and the "
+            "merge, and checks the integeriser's monotonicity against exact squared distances; the implementation's score must be "
+            "equal, its (offset, overlap, strand) admissible and its p-value within 1e-9; self-comparison and reverse-complement "
+            "invariance are asserted.",
+            "Trusted: TLC; G and u taken from the code's integeriser (as the property allows); exact p-values for lengths <= 3 and "
+            "<= 7 pooled columns; the strand-merge square is applied in floating point to TLC's exact smaller p-value.",
+            "DESIGN.md §5 C14"),
 }
 
 ALL = ["C%02d" % i for i in range(1, 21)]
